@@ -166,7 +166,9 @@ def run(chk):
     t = chk.tier
     chk.tlc("mc/MC_C08", "mc/MC_C08_%s.cfg" % t, workers=16, label="MC_C08 " + t, timeout=7000)
     r = chk.tlc("mc/MC_C08", "mc/MC_C08_%s_emit.cfg" % t, workers=1, label="MC_C08 emit " + t, timeout=7000)
-    for i, case in enumerate(r.emitted):
+    # larger systems (one qutrit, two qubits; testers from the exact catalogue): MC_C08_big, same emission format
+    rb = chk.tlc("mc/MC_C08_big", "mc/MC_C08_big_%s.cfg" % t, workers=8, label="MC_C08_big " + t, timeout=7000)
+    for i, case in enumerate(list(r.emitted) + list(rb.emitted)):
         replay(chk, case)
         chk.replayed += 1
         if i in (0, 40):
@@ -174,7 +176,7 @@ def run(chk):
                                       scheds=case["tomo"]["scheds"]), A_first_row=case["A"][0], b_head=case["b"][:3], rank=case["rank"],
                             phys=[p["name"] for p in case["phys"]]))
     chk.assumptions += [
-        "1-qubit tester sets from the exact catalogue (complete, over-complete, deficient, mixed outcome counts); all candidates through the affine-basis argument on the specification",
+        "1-qubit tester sets from the exact catalogue (complete, over-complete, deficient, mixed outcome counts), plus the standard qutrit and two-qubit tester sets (MC_C08_big: state and POVM tomography; qutrit process tomography and two-qubit POVM tomography in the thorough tier); all candidates through the affine-basis argument on the specification",
         "the library's circuit side clips and renormalises, so it is compared on physical candidates only",
     ]
     return chk.finish(exhaustive=True, rule="every configuration emitted by TLC; every entry of (A, b); distinct = configurations")
